@@ -12,6 +12,9 @@ from typing import Any
 
 VERIF = os.path.dirname(os.path.dirname(os.path.abspath(__file__)))
 REPO = os.environ.get('VERIF_REPO', '/repo')
+# where evidence / replay files go (regression runs against scratch copies of
+# the repository redirect them so that /verif/evidence is not overwritten)
+OUT = os.environ.get('VERIF_OUT', '/verif')
 sys.dont_write_bytecode = True
 
 
@@ -104,7 +107,7 @@ class Verdict:
         self._viol_seen.add(key)
         path = None
         if replay is not None or True:
-            d = os.path.join(VERIF, 'replays', self.prop)
+            d = os.path.join(OUT, 'replays', self.prop)
             os.makedirs(d, exist_ok=True)
             path = os.path.join(d, f'{key}.json')
             with open(path, 'w') as fp:
@@ -137,7 +140,7 @@ class Verdict:
             'known_findings': self.known,
             'notes': self.notes[:50],
         }
-        d = os.path.join(VERIF, 'evidence')
+        d = os.path.join(OUT, 'evidence')
         os.makedirs(d, exist_ok=True)
         with open(os.path.join(d, f'{self.prop}.json'), 'w') as f:
             json.dump(ev, f, indent=1, default=str)
